@@ -210,6 +210,45 @@ impl Node {
     pub fn has_reluctant(&self) -> bool {
         self.any(&|n| matches!(n, Node::Repeat { greedy: false, .. }))
     }
+    /// contains a negated class or a class subtraction (where flag i is not monotonic: [^Q] under i
+    /// excludes q as well, F&O 3.1 §5.6.1.1)
+    pub fn has_negated_or_subtracted_class(&self) -> bool {
+        fn cls(c: &ClassExpr) -> bool {
+            c.neg || c.sub.is_some()
+        }
+        self.any(&|n| matches!(n, Node::Class(c) if cls(c)))
+    }
+    /// contains a category escape that tells upper from lower case (\p{Lu}, \p{Ll}, \p{Lt} or negations)
+    pub fn has_case_sensitive_escape(&self) -> bool {
+        fn name(n: &str) -> bool {
+            matches!(n, "Lu" | "Ll" | "Lt")
+        }
+        fn cls(c: &ClassExpr) -> bool {
+            c.items.iter().any(|it| matches!(it, ClassItem::Prop(_, n) if name(n))) || c.sub.as_ref().map_or(false, |s| cls(s))
+        }
+        self.any(&|n| match n {
+            Node::Prop(_, n) => name(n),
+            Node::Class(c) => cls(c),
+            _ => false,
+        })
+    }
+    /// every character range of every class covers only characters that are case-less or belong
+    /// to a clean one-to-one case pair (the domain of the case-insensitivity property)
+    pub fn ranges_case_regular(&self) -> bool {
+        fn ok(a: char, b: char) -> bool {
+            if (b as u32) - (a as u32) > 2048 {
+                return false;
+            }
+            (a..=b).all(|x| crate::uoracle::case_partner(x).is_some() || (crate::uoracle::lower1(x) == x && crate::uoracle::upper1(x) == x))
+        }
+        fn cls(c: &ClassExpr) -> bool {
+            c.items.iter().all(|it| match it {
+                ClassItem::Range(a, b) => ok(*a, *b),
+                _ => true,
+            }) && c.sub.as_ref().map_or(true, |s| cls(s))
+        }
+        !self.any(&|n| matches!(n, Node::Class(c) if !cls(c)))
+    }
     pub fn has_ncgroup(&self) -> bool {
         self.any(&|n| matches!(n, Node::NcGroup(_)))
     }
